@@ -563,6 +563,12 @@ extern MPT_INTERFACE(input) *hk_notify_next(const MPT_STRUCT(notify) *n)
 #endif
 
 /* ---------- peers ---------- */
+/* no step waits: a peer whose write would block gives up (the step answers "refused") */
+static void no_block(int fd)
+{
+	int fl = fcntl(fd, F_GETFL);
+	if (fl >= 0) fcntl(fd, F_SETFL, fl | O_NONBLOCK);
+}
 static MPT_STRUCT(stream) *peer_stream(int fd)
 {
 	static const MPT_STRUCT(stream) fresh = MPT_STREAM_INIT;
@@ -570,6 +576,7 @@ static MPT_STRUCT(stream) *peer_stream(int fd)
 	MPT_STRUCT(socket) s;
 	*ps = fresh;
 	ps->_wd._enc = mpt_message_encoder(MPT_ENUM(EncodingCobs));
+	no_block(fd);
 	s._id = fd;
 	if (mpt_stream_dopen(ps, &s, MPT_STREAMFLAG(Write) | MPT_STREAMFLAG(WriteBuf)) < 0) { free(ps); return 0; }
 	return ps;
@@ -642,7 +649,7 @@ static int do_add(struct cmd *c, int kind, int t)
 	else if (kind == 'c') {
 		struct sockaddr_un addr;
 		char dest[96];
-		int lfd = socket(AF_UNIX, SOCK_STREAM, 0);
+		int lfd = socket(AF_UNIX, SOCK_STREAM | SOCK_NONBLOCK, 0);   /* no step waits */
 		new_path(s->path, sizeof(s->path), "sock");
 		memset(&addr, 0, sizeof(addr));
 		addr.sun_family = AF_UNIX;
@@ -711,7 +718,9 @@ static int send_msg(struct slot *s, const uint8_t *d, size_t n)
 		if (n > MAXLEN) n = MAXLEN;
 		frame[0] = (uint8_t) n;
 		memcpy(frame + 1, d, n);
-		return send(s->peer, frame, n + 1, MSG_NOSIGNAL) == (ssize_t) (n + 1) ? 0 : -2;
+		if (send(s->peer, frame, n + 1, MSG_NOSIGNAL | MSG_DONTWAIT) == (ssize_t) (n + 1)) return 0;
+		s->peer = -1;      /* nothing more goes to this input */
+		return -2;
 	}
 	if (!s->ps) return -3;
 	if (s->fd >= 0) ioctl(s->fd, FIONREAD, &before);
